@@ -4,7 +4,7 @@
          npl {plN plE}*npl pen [cutN cutE {tgN tgE stN stE}*nbCells]
    mode: 0 createStar(topo)  1 B2B  2 Star  3 Clique  4 LightStar  5 addBipoint(net) on every net  6 addClique(net) on every net
    Result: "<system of the repaired model> ## <system of the truncating model (std::vector<int> netWeight_)>"
-   system = "n | r c num/den;... | num/den;... (rhs) | num/den;... (initial) | num/den;... (stored net weights)"
+   system = "n | r c num/den;... | num/den;... (rhs) | num/den;... (initial) | num/den;... (stored net weights) | (normalised triplets) | (normalised rhs)"
    numbers are printed in binary ("-b101/b10") because they do not fit native ints. *)
 open Model_quad
 let rec pos_of_int n = if n = 1 then XH else if n land 1 = 0 then XO (pos_of_int (n lsr 1)) else XI (pos_of_int (n lsr 1))
@@ -34,9 +34,10 @@ let show_qs l = String.concat ";" (List.map show_q l)
 
 let show_sys (nm : netmodel) (s : sys) =
   let f = finalize s in
-  Printf.sprintf "%d | %s | %s | %s | %s" (List.length f.s_rhs)
-    (String.concat ";" (List.map (fun t -> Printf.sprintf "%d %d %s" (int_of_z t.t_row) (int_of_z t.t_col) (show_q t.t_val)) f.s_mat))
-    (show_qs f.s_rhs) (show_qs f.s_init) (show_qs (List.map (fun n -> n.n_weight) nm.nm_nets))
+  let g = solver_input s in   (* what MatrixCreator::solve hands to Eigen: finalize (normalize s) *)
+  let trips m = String.concat ";" (List.map (fun t -> Printf.sprintf "%d %d %s" (int_of_z t.t_row) (int_of_z t.t_col) (show_q t.t_val)) m) in
+  Printf.sprintf "%d | %s | %s | %s | %s | %s | %s" (List.length f.s_rhs) (trips f.s_mat)
+    (show_qs f.s_rhs) (show_qs f.s_init) (show_qs (List.map (fun n -> n.n_weight) nm.nm_nets)) (trips g.s_mat) (show_qs g.s_rhs)
 
 let do_asm () =
   let mode = nexti () in let nc = nexti () in let eps = q () in let nn = nexti () in
